@@ -82,6 +82,10 @@ def vboxed(v):
     return v[0] in ("s", "l", "a", "m")
 
 
+def ival(x):
+    return ("i", x)
+
+
 class Ref:
     """Variant values: ("n",) ("i",x) ("s",bytes) ("l",(values..)) ("a",(ints..)) ("m",(k,v,..));
     Xml values: ("n",) ("t",bytes) ("e",type bytes,(children values..))"""
@@ -157,8 +161,19 @@ class Ref:
             V[d] = v[1][int(t[3])]
         elif op == "vpusha":
             v = V[d]
-            V[d] = ("a", (v[1] if v[0] == "a" else ()) + (int(a),))
-        elif op == "vseta": V[d] = ("a", (int(a),))
+            V[d] = ("a", (v[1] if v[0] == "a" else ()) + (("i", int(a)),))
+        elif op == "vseta": V[d] = ("a", (("i", int(a)),))
+        elif op == "apushv":
+            s_ = int(a)
+            cur = V[d][1] if V[d][0] == "a" else ()
+            if d == s_ or V[s_][0] == "n" or (vboxed(V[s_]) and len(cur) >= FAMK):
+                return False
+            V[d] = ("a", cur + (V[s_],))
+        elif op == "agetv":
+            v = V[int(a)]
+            if v[0] != "a" or int(t[3]) >= len(v[1]):
+                return False
+            V[d] = v[1][int(t[3])]
         elif op in ("vputm", "vsetm"):
             v = V[d]
             cur = list(v[1]) if v[0] == "m" and op == "vputm" else []
@@ -341,9 +356,9 @@ def ref_eq_uncached(impl, ref):
         if pid is None:
             return False
         _, _, tag, val, embs = table[pid]
-        if v[0] in ("s", "a", "m"):
-            return tag == {"s": 12, "a": 14, "m": 15}[v[0]] and val == list(v[1])
-        if tag != 13 or embs is None or len(embs) != len(v[1]) or len(val) != len(v[1]):
+        if v[0] in ("s", "m"):
+            return tag == {"s": 12, "m": 15}[v[0]] and val == list(v[1])
+        if tag != {"l": 13, "a": 14}[v[0]] or embs is None or len(embs) != len(v[1]) or len(val) != len(v[1]):
             return False
         for e, byte, tk in zip(v[1], val, embs):
             if byte != (e[1] if e[0] == "i" else 0):
@@ -451,18 +466,18 @@ OPS = {
     "s": ["snew", "slit", "scopy", "sassign", "sclear", "sappend", "sreserve", "sdel", "sset",
           "sprepend", "sresize", "sreplace", "slower", "schar", "sprintf"],
     "v": ["vcopy", "vassign", "vclear", "vseti", "vsets", "vapp", "vpush", "vswap", "vsetl", "vpusha", "vseta", "vputm", "vsetm",
-          "vpushv", "vgetv"],
+          "vpushv", "vgetv", "apushv", "agetv"],
     "x": ["xcopy", "xassign", "xclear", "xsets", "xelem", "xaddc", "xgetc"],
     "p": ["pnew", "pcopy", "passign", "pclear", "pswap", "praw", "pctor", "plink", "pnext", "pnextof"],
 }
-ST_ONLY = {"sprintf", "sresize", "plink"}   # not in thread programs (see docs/rc.md)
+ST_ONLY = {"sprintf", "sresize", "plink", "apushv", "agetv"}   # Array growth re-copies the elements: single-threaded only   # not in thread programs (see docs/rc.md)
 W = {
-    "s": [3, 1, 4, 4, 2, 5, 2, 2, 2, 2, 2, 2, 2, 2, 1], "v": [4, 4, 2, 2, 3, 4, 3, 2, 2, 3, 1, 3, 1, 6, 4], "x": [4, 4, 2, 3, 4, 5, 3],
+    "s": [3, 1, 4, 4, 2, 5, 2, 2, 2, 2, 2, 2, 2, 2, 1], "v": [4, 4, 2, 2, 3, 4, 3, 2, 2, 3, 1, 3, 1, 6, 4, 4, 3], "x": [4, 4, 2, 3, 4, 5, 3],
     "p": [3, 4, 4, 2, 3, 2, 2, 4, 3, 2],
 }
 TWO = {"scopy", "sassign", "vcopy", "vassign", "vswap", "xcopy", "xassign", "pcopy", "passign", "pswap", "praw", "pctor",
-       "plink", "pnextof", "vpushv", "xaddc"}
-GET = {"vgetv", "xgetc"}
+       "plink", "pnextof", "vpushv", "xaddc", "apushv"}
+GET = {"vgetv", "xgetc", "agetv"}
 ONE = {"sclear", "sdel", "vclear", "xclear", "pclear", "slower", "schar", "pnext"}
 NUM = {"sreserve", "vseti", "vpush", "vsetl", "pnew", "sresize", "sprintf", "vpusha", "vseta"}
 NUM2 = {"sreplace", "vputm", "vsetm"}
@@ -478,7 +493,7 @@ def cur_len(r, kind, d):
     v = r.V[d] if kind == "v" else r.X[d]
     if kind == "v" and v[0] == "i":
         return 3
-    if kind == "v" and v[0] == "l":
+    if kind == "v" and v[0] in ("l", "a"):
         return len(v[1])
     return len(v[1]) if len(v) > 1 and isinstance(v[1], tuple) else 0
 
@@ -544,6 +559,8 @@ SMALL = {
           "vpushv 0 1", "vpushv 1 0", "vgetv 1 0 0", "vgetv 0 0 0", "vgetv 0 0 1"],
     "x": ["xsets 0 61", "xelem 0 62", "xcopy 1 0", "xassign 1 0", "xassign 0 1", "xassign 0 0", "xclear 0", "xclear 1", "xsets 1 63",
           "xelem 1 64", "xelem 1 -", "xaddc 0 1", "xaddc 1 0", "xgetc 1 0 0", "xgetc 0 0 0"],
+    "a": ["vsets 0 61", "vseti 1 7", "apushv 0 1", "apushv 1 0", "agetv 1 0 0", "agetv 0 0 0", "vpusha 0 4", "vseta 0 6",
+          "vcopy 1 0", "vclear 0", "vclear 1", "vassign 0 1"],
     "p": ["pnew 0 1", "pnew 1 2", "pcopy 1 0", "pcopy 2 0", "passign 1 0", "passign 0 1", "passign 0 0", "pclear 0", "pclear 1",
           "pswap 0 1", "pswap 0 0", "pnew 2 3", "passign 0 2", "pctor 1 2", "praw 0 2", "plink 0 1", "plink 1 0", "plink 0 0",
           "plink 0 2", "pnext 0", "pnext 1", "pnextof 1 0", "pclear 2"],
@@ -552,7 +569,7 @@ SMALL = {
 
 def exhaustive(depth, rng, limit):
     hs = []
-    for k in KINDS:
+    for k in SMALL:
         for dd in range(1, depth + 1):
             for p in itertools.product(SMALL[k], repeat=dd):
                 hs.append(list(p) + ["end"])
